@@ -2,6 +2,8 @@ import ScriggoV.Lemmas.BvInt
 import ScriggoV.Lemmas.Compile
 import ScriggoV.Lemmas.CompileCond
 import ScriggoV.Model.Eval
+import ScriggoV.Lemmas.Struct
+import ScriggoV.Lemmas.FieldIndex
 /-! # C01, stage one — the integer core of "interpreted programs behave like gc"
 
 `Gen/VMInt.lean` holds, regenerated from /repo on every check, the integer opcode bodies of
@@ -492,5 +494,131 @@ example :
     (compileCond (· + 1) (· + 2) (· + 1) c ⟨1, []⟩).test = .len 1 .lenLess (.reg 1) ∧
     evalCond [2] [] [2] c = .ok false := by
   refine ⟨rfl, rfl, ⟨⟨by decide, 2, rfl, by decide, by decide⟩, rfl⟩, by decide, by decide, rfl⟩
+
+/-! ## struct values, field paths, and the per-function table of field-index paths
+
+A selector `o.f` reaches the emitter as the index path `reflect.StructField.Index` of `f` (a
+promoted field of an embedded struct has a path longer than one); the emitter stores the path in
+the function's `FieldIndexes` table through `makeFieldIndex` and puts the POSITION into the
+`Field` / `SetField` / `Addr` instruction; the VM's `fieldByIndex` walks the path it finds at that
+position. `Model/Struct.lean` is the value side (trees, `select`, `update`, `==`, the selector
+evaluator that is the oracle of stream 7), `Model/FieldIndex.lean` the table side, on comparisons
+REGENERATED from `sameFieldIndex` / `makeFieldIndex` (`Gen/FieldIndex.lean`). -/
+namespace Fields
+open ScriggoV.Struct ScriggoV.FieldIndex ScriggoV.Gen.FieldIndex
+
+/-- **Field-path resolution.** Selecting through `p ++ q` is selecting `q` in what `p` selects: the
+promoted selector `o.P` (path `[0,0]`) IS `o.Inner.P` (`[0]` then `[0]`). -/
+theorem select_append (p q : Path) (v : SVal) : select (p ++ q) v = (select p v).bind (select q) :=
+  Struct.select_append p q v
+
+/-- a chain of Go selectors `x.f.g…` evaluates to the selection of the concatenated paths -/
+theorem selector_chain_is_path (ρ : Struct.Env) (e : Struct.Expr) (ps : List Path) :
+    Struct.eval ρ (selChain e ps) = (Struct.eval ρ e).bind (select ps.flatten) :=
+  eval_selChain ρ e ps
+
+/-- writing through `p ++ q`: take the part at `p`, write `q` inside it, put it back -/
+theorem update_append (p q : Path) (x v : SVal) :
+    update (p ++ q) x v = (select p v).bind fun c => (update q x c).bind fun c' => update p c' v :=
+  Struct.update_append p q x v
+
+/-- what was written is what is read back through the same path -/
+theorem select_after_update {p : Path} {x v v' : SVal} (h : update p x v = some v') :
+    select p v' = some x := select_update_same h
+
+/-- **prefix after a longer write** (`o.N += 10` then `o.Inner`): the part at the prefix is the old
+part with the rest of the path written in it — never the written leaf itself -/
+theorem select_prefix_after_update {p q : Path} {x v v' : SVal} (h : update (p ++ q) x v = some v') :
+    ∃ c c', select p v = some c ∧ update q x c = some c' ∧ select p v' = some c' :=
+  Struct.select_prefix_after_update h
+
+/-- a write does not touch what a diverging path selects -/
+theorem select_update_frame {p q : Path} {x v v' : SVal} (hd : diverge p q = true)
+    (h : update p x v = some v') : select q v' = select q v := select_update_diverge hd h
+
+/-- Go's `==` on struct values (field by field) is equality of the trees -/
+theorem struct_eq_iff (a b : SVal) : a.beq b = true ↔ a = b := beq_iff_eq a b
+
+/-- **assignment through a selector chain, then the same chain:** the assigned value; and (value
+semantics) no other local changes — a copy `w := o` made before is not affected -/
+theorem read_after_assign (s s' : State) (x : Nat) (chain : List Path) (e : Struct.Expr)
+    (h : Stmt.exec s (.assign x chain e) = some s') :
+    Struct.eval s'.env (selChain (.var x) chain) = Struct.eval s.env e ∧
+    ∀ y, y ≠ x → s'.env[y]? = s.env[y]? := by
+  simp only [Stmt.exec] at h
+  cases ho : s.env[x]? with
+  | none => simp [ho] at h
+  | some o =>
+    simp only [ho, Option.bind_some] at h
+    cases hv : Struct.eval s.env e with
+    | none => simp [hv] at h
+    | some v =>
+      simp only [hv, Option.bind_some] at h
+      cases hu : update chain.flatten v o with
+      | none => simp [hu] at h
+      | some o' =>
+        simp only [hu, Option.bind_some, setLocal] at h
+        split at h
+        · rename_i hlt
+          simp only [Option.map_some, Option.some.injEq] at h
+          subst h
+          refine ⟨?_, ?_⟩
+          · simp [eval_selChain, Struct.eval, hlt, select_update_same hu]
+          · intro y hy
+            simp [List.getElem?_set_ne (Ne.symm hy)]
+        · simp at h
+
+example : -- `o := Outer{Inner{Point{1,2},3},4}`: `o.P` is `o.Inner.P`, `o.N += 10` is seen through `o.Inner`
+    let o : SVal := .node [.node [.node [.int 1, .int 2], .int 3], .int 4]
+    select [0, 0] o = (select [0] o).bind (select [0]) ∧
+    (Struct.run [.opAssign 0 [[0, 1]] (.lit 10), .print (.sel (.sel (.var 0) [0]) [1])] ⟨[o], []⟩).map (·.out.length) = some 1 := by
+  refine ⟨rfl, by decide⟩
+
+/-- **`sameFieldIndex` compares by FULL equality** (regenerated guard and loop): it never faults
+and answers true exactly for the same path — in particular not for a proper prefix -/
+theorem sameFieldIndex_is_equality (i1 i2 : Path) : sameFieldIndex i1 i2 = .ok (decide (i1 = i2)) :=
+  sameFieldIndex_eq i1 i2
+
+example : sameFieldIndex [0] [0, 0] = .ok false ∧ sameFieldIndex [0, 0] [0] = .ok false ∧
+    sameFieldIndex [0, 1] [0, 1] = .ok true := ⟨rfl, rfl, rfl⟩
+
+/-- **a lookup answers a position whose stored path IS the requested path**, the first such
+position; the table is only ever appended to; the only failure is the limit, with the path absent -/
+theorem makeFieldIndex_complete (tbl : List Path) (p : Path) :
+    (∃ i, makeFieldIndex tbl p = .ok (i, tbl) ∧ tbl[i]? = some p ∧ ∀ j, j < i → tbl[j]? ≠ some p) ∨
+    (p ∉ tbl ∧ limitReached tbl.length = false ∧ makeFieldIndex tbl p = .ok (tbl.length, tbl ++ [p])) ∨
+    (p ∉ tbl ∧ limitReached tbl.length = true ∧ makeFieldIndex tbl p = .error .limit) :=
+  makeFieldIndex_spec tbl p
+
+theorem makeFieldIndex_stored_is_requested {tbl tbl' : List Path} {p : Path} {i : Nat}
+    (h : makeFieldIndex tbl p = .ok (i, tbl')) : tbl'[i]? = some p ∧ tbl <+: tbl' :=
+  ⟨makeFieldIndex_lookup h, makeFieldIndex_extends h⟩
+
+/-- the table holds no path twice, and positions fit the `int8`/`uint8` operand they travel in -/
+theorem makeFieldIndex_invariants {tbl tbl' : List Path} {p : Path} {i : Nat}
+    (h : makeFieldIndex tbl p = .ok (i, tbl')) (hn : tbl.Nodup) (hl : tbl.length ≤ maxFieldIndexesCount) :
+    tbl'.Nodup ∧ tbl'.length ≤ maxFieldIndexesCount ∧ readBack i = i := by
+  have hf := makeFieldIndex_fits h hl
+  exact ⟨makeFieldIndex_nodup h hn, hf.2, readBack_of_lt (by omega)⟩
+
+/-- **what the disassembler prints is what the source asked for:** for the emitter's requests of a
+whole function body, in order, every `Field` / `SetField` instruction refers — in the function's
+FINAL table — to the path requested when it was emitted, whatever was requested before or after -/
+theorem printed_paths_are_requested (evs : List Ev) (code : List FI) (tbl : List Path)
+    (h : compileEvents evs [] = .ok (code, tbl)) :
+    code.map (printed tbl) = (requested evs).map some :=
+  (compileEvents_paths evs [] code tbl h (by simp)).2.2 tbl (List.prefix_refl _)
+
+/-- **and the instructions do what the selectors say:** whole-selector reads and writes compiled
+through the table and run by a VM that walks the path stored at the instruction's position -/
+theorem selectors_compile_correct (ss : List SStmt) (code : List SInstr) (tbl : List Path)
+    (h : compileS ss [] = .ok (code, tbl)) (rs : Regs) : execAll tbl code rs = evalAll ss rs :=
+  (compileS_correct ss [] code tbl h (by simp)).2.2 tbl (List.prefix_refl _) rs
+
+example : -- the promoted field first, then the embedded struct itself: two entries, two positions
+    compileEvents [.read [0, 0], .read [0], .addr [0, 1], .read [0, 1], .store [0, 1], .read [0]] [] =
+      .ok ([.field 0, .field 1, .field 2, .setField 2, .field 1], [[0, 0], [0], [0, 1]]) := rfl
+
+end Fields
 
 end ScriggoV.C01
